@@ -323,7 +323,11 @@ def run_real(width, height, force_caps, has_screen, ops):
             out.append(tr.value())
         except Exception:  # the call raised: whatever was written before is discarded from the comparison
             out.append(None)
-    return out, (c.x, c.y, c.buttons)
+    try:
+        final = (c.x, c.y, c.buttons)
+    except Exception:  # noqa: BLE001  (the bookkeeping attributes are the implementation's business; the wire is judged)
+        final = (None, None, None)
+    return out, final
 
 
 # ------------------------------------------------------------------ generators
